@@ -16,19 +16,21 @@ import (
 	"encoding/json"
 	"fmt"
 	"os"
+	"os/exec"
 	"path/filepath"
 	"regexp"
 	"runtime"
 	"sort"
 	"strings"
 	"sync"
+	"sync/atomic"
+	"syscall"
 	"time"
 
 	"github.com/99designs/keyring"
 
 	"github.com/MichaelMure/git-bug/cache"
 	"github.com/MichaelMure/git-bug/entities/bug"
-	"github.com/MichaelMure/git-bug/entities/identity"
 	"github.com/MichaelMure/git-bug/entity"
 	"github.com/MichaelMure/git-bug/query"
 	"github.com/MichaelMure/git-bug/repository"
@@ -41,6 +43,7 @@ type c18Call struct {
 	Op     string `json:"op,omitempty"` // edit: comment | title | close | open | label | body
 	Commit bool   `json:"commit,omitempty"`
 	Prefix bool   `json:"prefix,omitempty"` // resolve through ResolvePrefix (as the web UI does)
+	N      int    `json:"n,omitempty"`      // query / allids: number of repetitions (default 1)
 }
 
 type c18Input struct {
@@ -50,7 +53,9 @@ type c18Input struct {
 	Reopen    bool        `json:"reopen"`     // close and reopen the cache before the goroutines start
 	Threads   [][]c18Call `json:"threads"`
 	Flavor    string      `json:"flavor"`
-	Timeout   int         `json:"timeout_s,omitempty"` // watchdog, default 40
+	Timeout   int         `json:"timeout_s,omitempty"` // watchdog hard limit, default 120
+	Rebuilds  int         `json:"rebuilds,omitempty"`  // flavour rebuild: number of cache rebuilds before the goroutines start
+	Authors   int         `json:"authors,omitempty"`   // flavour rebuild: identities, each the author of Shared bugs
 }
 
 type c18Driver struct{}
@@ -95,7 +100,11 @@ func c18GenCase(r *Rand, flavor string, big bool) c18Input {
 			}
 			switch {
 			case x < qshare:
-				calls = append(calls, c18Call{K: []string{"query", "queryq", "allids", "resolve"}[r.Intn(4)], B: r.Intn(in.Shared), Prefix: r.Bool()})
+				qc := c18Call{K: []string{"query", "queryq", "allids", "resolve"}[r.Intn(4)], B: r.Intn(in.Shared), Prefix: r.Bool()}
+				if flavor == "query" && (qc.K == "query" || qc.K == "allids") && r.Bool() {
+					qc.N = r.Range(100, 3000) // a client polling the list
+				}
+				calls = append(calls, qc)
 			case x < qshare+15:
 				calls = append(calls, c18Call{K: "new", B: -1})
 				hasOwn = true
@@ -121,10 +130,10 @@ func (c18Driver) Gen(r *Rand, tier string) []json.RawMessage {
 	plan := []struct {
 		flavor string
 		n      int
-	}{{"mixed", 14}, {"reopen", 18}, {"evict", 16}, {"query", 14}, {"tiny", 8}}
+	}{{"mixed", 10}, {"reopen", 14}, {"evict", 14}, {"query", 10}, {"tiny", 4}}
 	mult := 1
 	if tier == "thorough" {
-		mult = 15
+		mult = 18
 	}
 	var res []json.RawMessage
 	for _, p := range plan {
@@ -177,13 +186,14 @@ type c18Rec struct {
 }
 
 type c18Run struct {
-	in     c18Input
-	dir    string
-	c      *cache.RepoCache
-	author *cache.IdentityCache
-	shared []entity.Id
-	recs   [][]c18Rec
-	notes  []string
+	in        c18Input
+	dir       string
+	c         *cache.RepoCache
+	author    *cache.IdentityCache
+	shared    []entity.Id
+	recs      [][]c18Rec
+	doneCount *atomic.Int64
+	notes     []string
 }
 
 func (s *c18Run) open() error {
@@ -228,8 +238,31 @@ func (s *c18Run) setup() error {
 		}
 		s.shared = append(s.shared, b.Id())
 	}
+	for a := 0; a < s.in.Authors; a++ {
+		ida, err := c.Identities().New(fmt.Sprintf("author %d", a), fmt.Sprintf("a%d@example.org", a))
+		if err != nil {
+			return err
+		}
+		for i := 0; i < s.in.Shared; i++ {
+			if _, _, err := c.Bugs().NewRaw(ida, int64(1600000500+a*10+i), fmt.Sprintf("by author %d nr %d", a, i), "message", nil, nil); err != nil {
+				return err
+			}
+		}
+	}
+	// building the cache runs the identity and the bug builds concurrently
+	for n := 0; n < s.in.Rebuilds; n++ {
+		if err := s.c.Close(); err != nil {
+			return err
+		}
+		for _, d := range c18CacheDirs(s.dir) {
+			_ = os.RemoveAll(d)
+		}
+		if err := s.open(); err != nil {
+			return err
+		}
+	}
 	if s.in.Reopen {
-		if err := c.Close(); err != nil {
+		if err := s.c.Close(); err != nil {
 			return err
 		}
 		if err := s.open(); err != nil {
@@ -379,8 +412,11 @@ func (s *c18Run) worker(t int, start <-chan struct{}, wg *sync.WaitGroup) {
 			}
 			_ = b.Snapshot()
 		case "query":
-			if _, err := s.c.Bugs().Query(nil); err != nil {
-				fail(err)
+			for n := 0; n < call.N || n == 0; n++ {
+				if _, err := s.c.Bugs().Query(nil); err != nil {
+					fail(err)
+					break
+				}
 			}
 		case "queryq":
 			q, err := query.Parse("status:open sort:edit")
@@ -391,36 +427,62 @@ func (s *c18Run) worker(t int, start <-chan struct{}, wg *sync.WaitGroup) {
 				fail(err)
 			}
 		case "allids":
-			_ = s.c.Bugs().AllIds()
-			_ = s.c.Identities().AllIds()
+			for n := 0; n < call.N || n == 0; n++ {
+				_ = s.c.Bugs().AllIds()
+				_ = s.c.Identities().AllIds()
+			}
 		}
 		rec.Done = true
+		if s.doneCount != nil {
+			s.doneCount.Add(1)
+		}
 	}
 }
 
 var c18FrameRe = regexp.MustCompile(`(?m)^github\.com/MichaelMure/git-bug/([\w/]+)\.(\(?[\w\[\]\.\*,/ ]+\)?[\w\.]*)\(`)
 
 // classify the goroutine dump of a run that did not finish
-func c18ClassifyDump(dump string) []string {
+func c18ClassifyDump(dump string, mine string) []string {
 	tags := map[string]bool{}
 	for _, g := range strings.Split(dump, "\n\n") {
-		if !strings.Contains(g, "git-bug/cache") {
+		// only the goroutines of this run (a worker process keeps the blocked goroutines of earlier stuck runs)
+		if !strings.Contains(g, "git-bug/cache") || !strings.Contains(g, mine) {
 			continue
 		}
 		blockedR := strings.Contains(g, "sync.(*RWMutex).RLock")
 		blockedW := strings.Contains(g, "sync.(*RWMutex).Lock") || strings.Contains(g, "sync.(*Mutex).Lock")
+		if !blockedR && !blockedW {
+			continue
+		}
+		// the innermost frame of the cache package is the function that asked for the lock
+		inner := ""
+		for _, l := range strings.Split(g, "\n") {
+			if strings.HasPrefix(l, "github.com/MichaelMure/git-bug/cache.") {
+				inner = l
+				break
+			}
+		}
+		innerHandle := strings.Contains(inner, "cache.(*BugCache).") || strings.Contains(inner, "cache.(*CachedEntityBase[") || strings.Contains(inner, "cache.(*withSnapshot[")
 		switch {
-		case blockedR && strings.Contains(g, ".AllIds") && strings.Contains(g, "RepoCacheBug).Query"):
+		case strings.Contains(inner, ").AllIds") && strings.Contains(g, "RepoCacheBug).Query"):
 			tags["stuck:query-allids-rlock"] = true
-		case blockedW && strings.Contains(g, "evictIfNeeded") && !strings.Contains(g, "CachedEntityBase"):
-			tags["stuck:evict-waits-cache-lock"] = true
-		case blockedW && strings.Contains(g, "evictIfNeeded"):
+		case innerHandle && strings.Contains(g, ").evictIfNeeded"):
 			tags["stuck:evict-waits-entity-lock"] = true
-		case blockedW && strings.Contains(g, "entityUpdated"):
+		case strings.Contains(inner, ").evictIfNeeded"):
+			tags["stuck:evict-waits-cache-lock"] = true
+		case strings.Contains(inner, ").entityUpdated"):
 			tags["stuck:notify-waits-cache-lock"] = true
-		case (blockedW || blockedR) && strings.Contains(g, "BugCache).") && !strings.Contains(g, "SubCache"):
+		case innerHandle && strings.Contains(g, ").entityUpdated") && strings.Contains(g, "cache.NewRepoCacheBug.func"):
+			// entityUpdated, after it released the sub-cache lock: index data of an instance evicted meanwhile
+			tags["stuck:index-evicted-entity"] = true
+		case innerHandle && strings.Contains(g, ").entityUpdated"):
+			tags["stuck:notify-waits-entity-lock"] = true
+		case innerHandle:
+			// a goroutine that uses a handle it resolved earlier waits for the entity lock
 			tags["stuck:handle-entity-lock"] = true
-		case blockedR || blockedW:
+		case strings.Contains(inner, "cache.(*SubCache[") || strings.Contains(inner, "cache.(*RepoCacheBug)"):
+			tags["stuck:waits-cache-lock"] = true
+		default:
 			tags["stuck:other-lock"] = true
 		}
 	}
@@ -612,6 +674,8 @@ func (c18Driver) Run(raw json.RawMessage) Case {
 			s.recs[t][k].T, s.recs[t][k].K = t, k
 		}
 	}
+	var doneCount atomic.Int64
+	s.doneCount = &doneCount
 	start := make(chan struct{})
 	var wg sync.WaitGroup
 	for t := range in.Threads {
@@ -624,18 +688,72 @@ func (c18Driver) Run(raw json.RawMessage) Case {
 	obs := c18Obs{Coherent: true}
 	timeout := in.Timeout
 	if timeout <= 0 {
-		timeout = 40
+		timeout = 120
 	}
-	select {
-	case <-done:
-	case <-time.After(time.Duration(timeout) * time.Second):
-		obs.Stuck = true
-		buf := make([]byte, 1<<20)
-		buf = buf[:runtime.Stack(buf, true)]
-		obs.StuckTags = c18ClassifyDump(string(buf))
+	// watchdog: the run is stuck when every goroutine of it that has not finished waits for a lock, twice in a
+	// row with no call completed in between (robust on a loaded machine); or when the hard limit expires
+	dumpAll := func() string {
+		buf := make([]byte, 4<<20)
+		return string(buf[:runtime.Stack(buf, true)])
+	}
+	mine := fmt.Sprintf("main.(*c18Run).worker(%p,", s)
+	allBlocked := func(dump string) bool {
+		n := 0
+		for _, g := range strings.Split(dump, "\n\n") {
+			if !strings.Contains(g, mine) {
+				continue
+			}
+			n++
+			head := g
+			if i := strings.Index(g, "\n"); i >= 0 {
+				head = g[:i]
+			}
+			if !(strings.Contains(head, "[sync.Mutex.Lock") || strings.Contains(head, "[sync.RWMutex.RLock") || strings.Contains(head, "[sync.RWMutex.Lock") || strings.Contains(head, "[semacquire")) {
+				return false
+			}
+		}
+		return n > 0
+	}
+	deadline := time.After(time.Duration(timeout) * time.Second)
+	tick := time.NewTicker(1500 * time.Millisecond)
+	defer tick.Stop()
+	var stuckDump string
+wait:
+	for {
+		select {
+		case <-done:
+			break wait
+		case <-deadline:
+			obs.Stuck = true
+			stuckDump = dumpAll()
+			if !allBlocked(stuckDump) {
+				obs.StuckTags = append(obs.StuckTags, "stuck:timeout-not-blocked")
+			}
+			break wait
+		case <-tick.C:
+			before := doneCount.Load()
+			if !allBlocked(dumpAll()) {
+				continue
+			}
+			time.Sleep(700 * time.Millisecond)
+			d2 := dumpAll()
+			select {
+			case <-done:
+				break wait
+			default:
+			}
+			if allBlocked(d2) && doneCount.Load() == before {
+				obs.Stuck = true
+				stuckDump = d2
+				break wait
+			}
+		}
+	}
+	if obs.Stuck {
+		obs.StuckTags = append(obs.StuckTags, c18ClassifyDump(stuckDump, mine)...)
 		var keep []string
-		for _, g := range strings.Split(string(buf), "\n\n") {
-			if strings.Contains(g, "git-bug/cache") {
+		for _, g := range strings.Split(stuckDump, "\n\n") {
+			if strings.Contains(g, "git-bug/cache") && strings.Contains(g, mine) {
 				keep = append(keep, g)
 			}
 		}
@@ -737,12 +855,12 @@ func (c18Driver) Run(raw json.RawMessage) Case {
 
 func c18Render(in c18Input, raw json.RawMessage, s *c18Run, obs c18Obs, flushClass map[string]int) Case {
 	// numbering: bugs 1..S shared, then one per "new" call; operations: 1 + index of the issuing call
-	// in thread-major order; create operations of shared bugs: 100000 + bug number; unknown: 0
+	// in thread-major order; create operations of shared bugs: 1000 + bug number; unknown: 0
 	bugNo := map[string]int{}
 	opNo := map[string]int{}
 	for i, id := range s.shared {
 		bugNo[id.String()] = i + 1
-		opNo[id.String()] = 100000 + i + 1
+		opNo[id.String()] = 1000 + i + 1
 	}
 	next := len(s.shared) + 1
 	for i, r := range obs.Calls {
@@ -772,7 +890,11 @@ func c18Render(in c18Input, raw json.RawMessage, s *c18Run, obs c18Obs, flushCla
 		if r.OpID != "" {
 			op = i + 1
 		}
-		callTerms = append(callTerms, fmt.Sprintf("mkcall %d %s %d %d %d %d", r.T, kind, bugNo[r.Bug], op, r.EditE, r.CommE))
+		e2 := r.CommE
+		if !r.HasC {
+			e2 = 7
+		}
+		callTerms = append(callTerms, fmt.Sprintf("mkcall %d %s %d %d %d %d", r.T, kind, bugNo[r.Bug], op, r.EditE, e2))
 		if r.HasC && r.CommE == c18OK {
 			ncommitted++
 		}
@@ -824,7 +946,8 @@ func c18Render(in c18Input, raw json.RawMessage, s *c18Run, obs c18Obs, flushCla
 			evict = 2
 		}
 	}
-	term := fmt.Sprintf("mkcase %d %d %s %s %s %s %s", evict, len(s.shared), coqList(callTerms), coqList(flushTerms), coqList(bugTerms), coqBool(obs.Stuck), coqBool(obs.Coherent))
+	// last field: unsynchronised accesses to a Go map seen by the race detector (filled in by the C18r driver)
+	term := fmt.Sprintf("mkcase %d %d %s %s %s %s %s 0", evict, len(s.shared), coqList(callTerms), coqList(flushTerms), coqList(bugTerms), coqBool(obs.Stuck), coqBool(obs.Coherent))
 	tags := []string{"flavor:" + in.Flavor, fmt.Sprintf("procs:%d", in.Procs), fmt.Sprintf("n:goroutines:%d", len(in.Threads)), fmt.Sprintf("evict:%d", evict)}
 	if in.Reopen {
 		tags = append(tags, "reopen")
@@ -836,6 +959,41 @@ func c18Render(in c18Input, raw json.RawMessage, s *c18Run, obs c18Obs, flushCla
 	if !obs.Coherent {
 		tags = append(tags, "incoherent")
 	}
+	// Go-side classification, for histograms and finding signatures only (the verdict is computed in Coq)
+	lost, bad := false, false
+	for _, r := range obs.Calls {
+		call := in.Threads[r.T][r.K]
+		acked := r.OpID != "" && r.EditE == c18OK && (call.K == "new" || (call.K == "edit" && call.Commit && (r.CommE == c18OK || r.CommE == c18NoPending)))
+		if !acked {
+			continue
+		}
+		n := 0
+		for _, p := range obs.Stored[r.Bug].Packs {
+			for _, o := range p {
+				if o == r.OpID {
+					n++
+				}
+			}
+		}
+		if n != 1 {
+			lost = true
+		}
+	}
+	for _, st := range obs.Stored {
+		var flat []string
+		for _, p := range st.Packs {
+			flat = append(flat, p...)
+		}
+		if !st.Chain || st.ReadErr != "" || strings.Join(flat, ",") != strings.Join(st.Read, ",") {
+			bad = true
+		}
+	}
+	if lost {
+		tags = append(tags, "lost-ack")
+	}
+	if bad {
+		tags = append(tags, "bad-history")
+	}
 	for k := range errKinds {
 		tags = append(tags, "err:"+k)
 	}
@@ -843,4 +1001,206 @@ func c18Render(in c18Input, raw json.RawMessage, s *c18Run, obs c18Obs, flushCla
 	return Case{Coq: term, Obs: obs, Tags: tags, NonTrivial: ncommitted >= 2 && len(in.Threads) >= 2, Key: string(raw)}
 }
 
-var _ = identity.Typename
+// ---- C18r: the same runs under the race detector ----
+//
+// The driver builds a second harness binary with -race (same sources, same /repo), runs one case in it
+// and reads the detector's reports. Reports are evidence (tags, observation), with one exception:
+// an unsynchronised access to a Go map is counted in the case (c_fatal), because the Go runtime turns
+// it into "fatal error: concurrent map read and map write" — an unrecoverable crash of the process —
+// whenever the two accesses really overlap.
+
+type c18RaceDriver struct{}
+
+func init() { register("C18r", c18RaceDriver{}) }
+
+func (c18RaceDriver) Gen(r *Rand, tier string) []json.RawMessage {
+	n := 4
+	if tier == "thorough" {
+		n = 60
+	}
+	var res []json.RawMessage
+	// building the cache with several identities and bugs by different authors
+	res = append(res, mustJSON(c18Input{Procs: 4, Shared: 1, Authors: 2, Rebuilds: 1, Flavor: "rebuild",
+		Threads: [][]c18Call{{{K: "allids"}}, {{K: "allids"}}}}))
+	flavors := []string{"reopen", "evict", "query", "mixed"}
+	for i := 0; i < n; i++ {
+		in := c18GenCase(r, flavors[i%len(flavors)], false)
+		if len(in.Threads) > 4 {
+			in.Threads = in.Threads[:4]
+		}
+		for t := range in.Threads {
+			if len(in.Threads[t]) > 4 {
+				in.Threads[t] = in.Threads[t][:4]
+			}
+		}
+		if in.CacheSize > 0 && in.CacheSize < len(in.Threads) {
+			in.CacheSize = len(in.Threads)
+		}
+		res = append(res, mustJSON(in))
+	}
+	return res
+}
+
+var c18RaceOnce sync.Once
+var c18RaceBin, c18RaceErr string
+
+func c18BuildRace() {
+	root := os.Getenv("VERIF_ROOT")
+	if root == "" {
+		c18RaceErr = "VERIF_ROOT not set"
+		return
+	}
+	src := filepath.Join(root, ".work", "harness-build")
+	bin := filepath.Join(root, ".work", "bin", "harness-race")
+	lock, err := os.OpenFile(filepath.Join(root, ".work", "harness-race.lock"), os.O_CREATE|os.O_RDWR, 0o644)
+	if err != nil {
+		c18RaceErr = err.Error()
+		return
+	}
+	defer lock.Close()
+	if err := syscall.Flock(int(lock.Fd()), syscall.LOCK_EX); err != nil {
+		c18RaceErr = err.Error()
+		return
+	}
+	defer syscall.Flock(int(lock.Fd()), syscall.LOCK_UN)
+	cmd := exec.Command("go", "build", "-race", "-tags", "verif", "-o", bin, ".")
+	cmd.Dir = src
+	cmd.Env = append(os.Environ(), "GOFLAGS=-mod=mod", "GOPROXY=off", "GOSUMDB=off", "GOTOOLCHAIN=local")
+	out, err := cmd.CombinedOutput()
+	if err != nil {
+		c18RaceErr = "go build -race: " + err.Error() + ": " + string(out)
+		return
+	}
+	c18RaceBin = bin
+}
+
+type c18RaceReport struct {
+	A, B string // innermost git-bug frame of the two accesses, with the kind of access
+	Map  bool   // one of the accesses is inside the runtime's map code
+}
+
+var c18HexRe = regexp.MustCompile(`\(0x[0-9a-f, x]*\)|\[go\.shape[^\]]*\]`)
+
+func c18ParseRaces(stderr string) []c18RaceReport {
+	var res []c18RaceReport
+	parts := strings.Split(stderr, "WARNING: DATA RACE")
+	for _, p := range parts[1:] {
+		if i := strings.Index(p, "=================="); i >= 0 {
+			p = p[:i]
+		}
+		blocks := strings.Split(strings.TrimSpace(p), "\n\n")
+		var sides []string
+		isMap := false
+		for _, b := range blocks {
+			lines := strings.Split(b, "\n")
+			head := strings.TrimSpace(lines[0])
+			if !(strings.HasPrefix(head, "Read at") || strings.HasPrefix(head, "Write at") || strings.HasPrefix(head, "Previous read at") || strings.HasPrefix(head, "Previous write at")) {
+				continue
+			}
+			kind := "write"
+			if strings.Contains(strings.ToLower(head), "read") {
+				kind = "read"
+			}
+			frame := "?"
+			first := true
+			for _, l := range lines[1:] {
+				if !strings.HasPrefix(l, "  ") || strings.HasPrefix(l, "      ") {
+					continue
+				}
+				f := strings.TrimSpace(l)
+				if first && strings.HasPrefix(f, "runtime.map") {
+					isMap = true
+				}
+				first = false
+				if i := strings.Index(f, "MichaelMure/git-bug/"); i >= 0 {
+					frame = c18HexRe.ReplaceAllString(f[i+len("MichaelMure/git-bug/"):], "")
+					break
+				}
+			}
+			sides = append(sides, kind+" "+frame)
+		}
+		if len(sides) >= 2 {
+			sort.Strings(sides[:2])
+			res = append(res, c18RaceReport{A: sides[0], B: sides[1], Map: isMap})
+		}
+	}
+	return res
+}
+
+func (c18RaceDriver) Run(raw json.RawMessage) Case {
+	c18RaceOnce.Do(c18BuildRace)
+	if c18RaceBin == "" {
+		return Case{Skip: "no race-enabled harness: " + c18RaceErr}
+	}
+	f, err := os.CreateTemp("", "verif-c18r-*.jsonl")
+	if err != nil {
+		return Case{Skip: err.Error()}
+	}
+	defer os.Remove(f.Name())
+	f.Write(raw)
+	f.Write([]byte("\n"))
+	f.Close()
+	cmd := exec.Command(c18RaceBin, "worker", "C18", "-inputs", f.Name(), "-from", "0", "-to", "1")
+	cmd.Env = append(os.Environ(), "GORACE=halt_on_error=0")
+	var stdout, stderr strings.Builder
+	cmd.Stdout = &stdout
+	cmd.Stderr = &stderr
+	runErr := cmd.Run()
+	var c Case
+	got := false
+	for _, l := range strings.Split(stdout.String(), "\n") {
+		if strings.HasPrefix(l, "CASE ") {
+			if json.Unmarshal([]byte(l[5:]), &c) == nil {
+				got = true
+			}
+		}
+	}
+	if !got {
+		// the child died (for instance "fatal error: concurrent map read and map write"): die the same way,
+		// so that the parent records a crash with this text
+		msg := stderr.String()
+		if i := strings.Index(msg, "fatal error"); i >= 0 {
+			msg = msg[i:]
+		}
+		if len(msg) > 6000 {
+			msg = msg[:6000]
+		}
+		fmt.Fprintf(os.Stderr, "race-enabled run died (%v):\n%s\n", runErr, msg)
+		os.Exit(3)
+	}
+	if c.Skip != "" {
+		return c
+	}
+	reports := c18ParseRaces(stderr.String())
+	nmap := 0
+	kinds := map[string]int{}
+	for _, r := range reports {
+		k := r.A + " || " + r.B
+		if r.Map {
+			nmap++
+			k = "[map] " + k
+		}
+		kinds[k]++
+	}
+	var ks []string
+	for k := range kinds {
+		ks = append(ks, k)
+	}
+	sort.Strings(ks)
+	var summary []string
+	for _, k := range ks {
+		summary = append(summary, fmt.Sprintf("%d x %s", kinds[k], k))
+		c.Tags = append(c.Tags, "race:"+k)
+	}
+	if nmap > 0 {
+		c.Tags = append(c.Tags, "race-on-map")
+	}
+	if len(reports) == 0 {
+		c.Tags = append(c.Tags, "race:none")
+	}
+	sort.Strings(c.Tags)
+	c.Coq = strings.TrimSuffix(c.Coq, " 0") + fmt.Sprintf(" %d", nmap)
+	c.Obs = map[string]interface{}{"run": c.Obs, "race_reports": len(reports), "races_on_maps": nmap, "races": summary}
+	c.Input = nil
+	return c
+}
